@@ -124,6 +124,9 @@ func (t *Term) String() string {
 	return s
 }
 
+// elemTerm stands for "the element" inside all(xs, F) / some(xs, F).
+var elemTerm = mk("elem", "")
+
 func fact(pred string, a ...*Term) *Term { return &Term{K: "fact", S: pred, A: a} }
 
 // walk visits every subterm.
@@ -502,6 +505,7 @@ var factPreds = map[string]bool{
 	"is": true, "notis": true, "nil": true, "nonnil": true, "def": true, "has": true, "lacks": true,
 	"errIs": true, "notErrIs": true, "errAs": true, "notErrAs": true, "inloop": true, "same": true, "zero": true,
 	"literal": true, "fresh": true, "any": true,
+	"member": true, "notmember": true, "all": true, "some": true,
 }
 
 // Clause: disjunction of alternatives; alternative: conjunction of fact patterns.
@@ -608,6 +612,8 @@ func patTerm(e ast.Expr) *Term {
 			return mk("rest", "")
 		case x.Name == "nil":
 			return mk("nil", "")
+		case x.Name == "ELEM":
+			return elemTerm
 		}
 		return mk("const", x.Name)
 	case *ast.BasicLit:
